@@ -639,6 +639,17 @@ impl Kanata {
         self.sequence_always_on = cfg.options.sequence_always_on;
         self.sequence_input_mode = cfg.options.sequence_input_mode;
         self.sequence_timeout = cfg.options.sequence_timeout;
+        // A mouse button that is held down is released by the release handler of its action,
+        // which goes away with the old layout. Keys are released by the next tick.
+        for state in self.layout.b().states.iter() {
+            if let State::Custom { value, .. } = state {
+                for custact in value.iter() {
+                    if let CustomAction::Mouse(btn) = custact {
+                        self.kbd_out.release_btn(*btn)?;
+                    }
+                }
+            }
+        }
         self.layout = cfg.layout;
         self.key_outputs = cfg.key_outputs;
         self.layer_info = cfg.layer_info;
